@@ -6,7 +6,7 @@ LABELS = ["a", "b", "", "ab", "x y", "é", "a-b", "\U0001d11e", "\ufeffa", "b\u2
 # ticks of 1, 1/8, 1/1024 s -- and, less often, of 1024 s, 131072 s and 2^-24 s: the same order types at magnitudes
 # of hours, days and fractions of a microsecond (all exact in binary64)
 SCALES_DYADIC = [("dyadic", 0), ("dyadic", 3), ("dyadic", 10), ("dyadic", 0), ("dyadic", 3), ("dyadic", 10),
-                 ("dyadic", -10), ("dyadic", -17), ("dyadic", 24)]
+                 ("dyadic", -10), ("dyadic", -17), ("dyadic", 24), ("dyadic", 30)]     # ticks from 2^17 s down to ~1e-9 s
 SCALES_DECIMAL = [("decimal", 1), ("decimal", 3), ("decimal", 2)]
 
 
